@@ -265,30 +265,3 @@ def observe_eval(case, opts=None):
     del keep
     return case
 
-
-def judge_total(module, recs, **kw):
-    """harness.tlc.judge, repeated until every rejected case is identified: Verdict.tla caps the list of
-    rejected ids at 60 per JVM, so a large class of rejections (a known defect) could hide the clause
-    of a different one.  Each further pass re-judges the cases not yet identified as rejected."""
-    from harness.tlc import TLCError, judge
-
-    first = judge(module, recs, **kw)
-    found = dict((int(cid), clause) for cid, clause in first["rejected"])
-    passes, wall = 1, first["wall"]
-    while len(found) < first["rejected_n"]:
-        rest = [r for r in recs if r["id"] not in found]
-        # enough JVMs that the 60-per-JVM cap is unlikely to bind again
-        kw2 = dict(kw)
-        kw2["shards"] = max(1, min(400, len(rest), (first["rejected_n"] - len(found)) // 30 + 1))
-        j = judge(module, rest, **kw2)
-        new = dict((int(cid), clause) for cid, clause in j["rejected"])
-        if not new or j["rejected_n"] != first["rejected_n"] - len(found):
-            raise TLCError("judge %s: inconsistent verdicts between passes (%d identified, %d + %d rejected)" % (module, len(found), j["rejected_n"], len(found)))
-        found.update(new)
-        passes += 1
-        wall += j["wall"]
-        if passes > 40:
-            raise TLCError("judge %s: too many passes" % module)
-    out = dict(first)
-    out.update(rejected=sorted(found.items()), wall=wall, passes=passes)
-    return out
